@@ -1,6 +1,7 @@
 import CMacVerif.Lemmas.RanluxStream
 import CMacVerif.Lemmas.RanluxSeed
 import CMacVerif.Lemmas.RanluxLcg
+import CMacVerif.Lemmas.RanluxSplit
 /-!
 # C13 — the random stream is RANLUX (ranlxd2); same seed, same stream
 
@@ -315,6 +316,47 @@ theorem streams_differ (a b : Int) (ha : 1 ≤ a) (ha' : a < 2147483648) (hb : 1
   apply streams_differ_eff
   rw [effSeed_of_range a ha ha', effSeed_of_range b hb hb']
   omega
+
+/-! ## the consumer of a locally constructed generator: the photon packet split -/
+
+/-- the split of `DistributedPhotonSource` hands out exactly `N` packets (quotas `q ≤ N` in
+total, every source over `c ≥ 1` copies, leftovers to valid source indices) … -/
+theorem split_sum (N : Nat) (src : List (Nat × Nat)) (idx : Nat → Nat)
+    (hc : ∀ p ∈ src, 0 < p.2) (hq : (src.map Prod.fst).sum ≤ N) (hi : ∀ i, idx i < src.length) :
+    (split N src idx).sum = N ∧ (split N src idx).length = (src.map Prod.snd).sum := by
+  have b := splitBase_spec src [] [] hc (by simp)
+  unfold split
+  generalize splitBase src [] [] = r at b
+  obtain ⟨tot, ov⟩ := r
+  obtain ⟨b1, b2, b3, b4⟩ := b
+  dsimp only at b1 b2 b3 b4 ⊢
+  have l := leftovers_spec ov idx (by intro i; rw [b3]; simpa using hi i)
+    (N - (src.map Prod.fst).sum) 0 tot b4
+  rw [l.1, l.2, b1, b2]
+  simp
+  omega
+
+/-- … and is a function of `(N, quotas, copies)` and of the stream of a generator seeded with the
+constant default seed inside the constructor: the leftover `i` goes to the source computed from
+draw number `i` of `stream 42`, counted from 0 in EVERY construction.  Two constructions from
+the same inputs give the same split (there is no hidden state; a `static` generator would make
+`idx` depend on the number of earlier constructions — the harness constructs twice and
+compares). -/
+theorem split_fresh_generator (N : Nat) (src : List (Nat × Nat)) (toIdx : Int → Nat) (k : Nat) :
+    split N src (fun i => toIdx (stream defaultSeed i))
+      = split N src (fun i => toIdx (draw exact (seedState exact 42) (0 + i))) ∧
+    -- a generator that has already been used `k` times would read the stream from position k
+    (fun i => draw exact (after exact (seedState exact 42) k) i)
+      = (fun i => stream defaultSeed (k + i)) := by
+  refine ⟨by simp only [Nat.zero_add]; rfl, ?_⟩
+  funext i
+  unfold stream draw defaultSeed
+  congr 2
+  induction i with
+  | zero => rfl
+  | succ i ih => rw [after, ih]; rfl
+
+example : (split 10 [(1, 1), (2, 2), (5, 1)] (fun i => i % 3)).sum = 10 := by decide
 
 /-! ## non-vacuity -/
 
